@@ -64,7 +64,7 @@ func check(d *fw.Driver, res *fw.Result, e *scen.Env, timeout time.Duration, fau
 	res.Traces++
 	res.Events += len(mes)
 	if mm["accepted"] != true {
-		res.Add(fw.Finding{Kind: "tie", Signature: sig + " keepalive event refused", Detail: fmt.Sprintf("the model refuses the timed keepalive trace: %v", mm["why"]), Model: model})
+		res.Add(fw.Finding{Kind: "tie", Signature: sig + " keepalive event refused", Detail: fmt.Sprintf("the model refuses the timed keepalive trace: %v", mm["why"]), Model: model, Case: ask})
 	}
 	_ = faulted
 	return nil
@@ -149,6 +149,11 @@ func silentAfterReconnect(res *fw.Result, seed int64, base int) error {
 	if e.PX.Accepted() < n0+1 {
 		res.Add(fw.Finding{Kind: "monitor", Signature: sig + " no redial", Detail: "the client did not redial after the reset", Case: c})
 		return nil
+	}
+	// (a blackhole before the handshake response would leave the client waiting in its dial, which is
+	// not the situation under study)
+	for time.Now().Before(deadline) && !e.PX.Upgraded(n0+1) {
+		time.Sleep(200 * time.Microsecond)
 	}
 	time.Sleep(2 * time.Millisecond)
 	e.PX.Cut(n0+1, "blackhole")
